@@ -140,6 +140,9 @@ def build(reg, src):
                     lambda s, r: is_none(s.st.field(s.x0, 'idx_cols'))])
 
     from replay import c19 as rp
+    rp.replay_table.timeout_s = 180
+    reg.replays.append((r'#db\.', rp.replay_db_view))                # sub-verification batteries: run proactively by the thorough tier
+    reg.replays.append((r'#merge\.', rp.replay_indexed_commit))
     reg.replays.append((r'.', rp.replay_table))
 
 
